@@ -18,6 +18,14 @@ def build_jobs(tier, seed):
     k = 1 if tier == 'quick' else 2
     jobs += img.simple_jobs(J, H, PROPS, k, tier)
     jobs.append(J(H['vhdx'], dict(P, cuts=1, sigs='fixed'), split_depth=16))
+    # InspectWrapper with all ten inspectors: reads of 4096 (thorough: a
+    # symbolic read size) against one read of the whole stream
+    for mg in (('none', 'qcow2', 'vmdk') if tier == 'quick' else
+               [m for m, _ in img.MAGICS0]):
+        jobs.append(J(H['detect'], dict(
+            P, magic=mg, overlays='single', relational=True, nmin=33000,
+            read=4096 if tier == 'quick' else 'sym', vmdk_ok=True),
+            split_depth=8))
     if tier == 'thorough':
         jobs.append(J(H['vhdx'], dict(P, cuts=1, sigs='sym'),
                       split_depth=18))
@@ -53,6 +61,10 @@ def describe(tier):
         'offset/length symbolic 32-bit, size 64-bit; table layouts: one '
         'entry (thorough: also one padding entry before it); signatures '
         'fixed (thorough: symbolic)',
+        'wrapper': 'InspectWrapper over the polyglot family of C03 (one '
+        'offset-0 magic + at most one overlay, length in [33000, 40960]): '
+        'reads of 4096 (thorough: symbolic 512..65536, at most 4 reads) '
+        'against a single read; same format / formats / exception',
         'outside': 'more than 2 cuts at inspector level; VMDK see vmdk '
         'harness; VHDX tables with more than 2 entries',
     }
